@@ -38,7 +38,7 @@ class _Null(io.TextIOBase):
 _DEVNULL = _Null()
 MAX_VIOLATIONS = 12
 READERS = ["svg2paths", "svg2paths2", "svg2paths_stream", "svgstr2paths", "document", "document_stream",
-           "document_string", "sax"]
+           "document_string", "sax", "svg2paths_textstream", "document_textstream"]
 WRITE_OPS = ("wsvg", "disvg", "doc_save", "doc_display", "sax_resave")
 
 
@@ -48,6 +48,14 @@ WRITE_OPS = ("wsvg", "disvg", "doc_save", "doc_display", "sax_resave")
 
 def cz(p):
     return complex(p[0], p[1])
+
+
+def fn_arg(op, name):
+    """the file-name argument as the caller passes it: a str, or a pathlib.Path when op['pathlike']"""
+    if name is not None and op.get("pathlike"):
+        import pathlib
+        return pathlib.Path(name)
+    return name
 
 
 def build_seg(s):
@@ -454,27 +462,34 @@ class World:
             if reader == "svg2paths2":
                 p, a, s = svg2paths2(name)
                 return ("ok", (p, a, s))
+            if reader == "svg2paths_textstream":
+                with open(name, "r", encoding="utf-8") as f:
+                    p, a, s = svg2paths(f, return_svg_attributes=True)
+                return ("ok", (p, a, s))
             if reader == "svg2paths_stream":
-                data = fs.content(fs.resolve(name))
+                data = fs.content(fs.resolve(str(name)))
                 if data is None:
                     raise FileNotFoundError(name)
                 st = io.BufferedReader(ShortReadStream(data, self.config.get("short_step", 7)), 16)
                 p, a, s = svg2paths(st, return_svg_attributes=True)
                 return ("ok", (p, a, s))
             if reader == "svgstr2paths":
-                data = fs.content(fs.resolve(name))
+                data = fs.content(fs.resolve(str(name)))
                 if data is None:
                     raise FileNotFoundError(name)
                 p, a, s = svgstr2paths(data.decode("utf-8"), return_svg_attributes=True)
                 return ("ok", (p, a, s))
-            if reader in ("document", "document_stream", "document_string"):
+            if reader in ("document", "document_stream", "document_string", "document_textstream"):
                 if reader == "document":
                     doc = Document(name)
                 elif reader == "document_stream":
                     with open(name, "rb") as f:
                         doc = Document(f)
+                elif reader == "document_textstream":
+                    with open(name, "r", encoding="utf-8") as f:
+                        doc = Document(f)
                 else:
-                    data = fs.content(fs.resolve(name))
+                    data = fs.content(fs.resolve(str(name)))
                     if data is None:
                         raise FileNotFoundError(name)
                     doc = Document.from_svg_string(data.decode("utf-8"))
@@ -673,7 +688,9 @@ class World:
             self.probe("timestamped_write")
         pre = fs.gens()
         nb = len(fs.browser_calls)
-        status, val, fired = self.run(op, lambda: fn(args, filename=fname, **kw))
+        if op.get("pathlike") and fname is not None:
+            self.probe("pathlib_file_name")
+        status, val, fired = self.run(op, lambda: fn(args, filename=fn_arg(op, fname), **kw))
         name = self.after_write(idx, op, status, fired, pre, tree, target, writer)
         if will_stamp and status == "ok" and name is not None and pre.get(name) is not None:
             self.probe("two_timestamped_writes_collide_on_one_name")
@@ -709,7 +726,7 @@ class World:
 
         def load():
             if via == "path":
-                return Document(op["file"])
+                return Document(fn_arg(op, op["file"]))
             if via == "stream":
                 with open(op["file"], "rb") as f:
                     return Document(f)
@@ -890,7 +907,8 @@ class World:
         names = list(op["names"])
         gnode = dm.tree.find_group(names)
         arg = self._names_arg(op, names)
-        st, ps, _ = self.run({"faults": []}, lambda: dm.obj.paths_from_group(arg))
+        recursive = bool(op.get("recursive", True))
+        st, ps, _ = self.run({"faults": []}, lambda: dm.obj.paths_from_group(arg, recursive=recursive))
         if st != "ok":
             self.violate(idx, "read_failed", {"status": st, "op": "paths_from_group"}, "document", dm.tree.shape(),
                          "document-live-group")
@@ -900,6 +918,9 @@ class World:
             sub.children = gnode.children
         elif gnode is dm.tree:
             sub.children = dm.tree.children
+        if not recursive:
+            sub.children = [c for c in sub.children if isinstance(c, PNode)]
+            self.probe("paths_from_group_not_recursive")
         res = (ps, [dict(q.element.attrib) for q in ps], None)
         m = match(res, sub, "document-live-group")
         if m is not None:
@@ -919,7 +940,7 @@ class World:
         tree = dm.tree.clone()
         tree.writer = "document:" + dm.origin.split(":")[0]
         pre = fs.gens()
-        status, val, fired = self.run(op, lambda: dm.obj.save(op["file"], prettify=bool(op.get("prettify"))))
+        status, val, fired = self.run(op, lambda: dm.obj.save(fn_arg(op, op["file"]), prettify=bool(op.get("prettify"))))
         self.after_write(idx, op, status, fired, pre, tree, target, tree.writer)
         if status == "ok" and op["doc"] in self.docs:
             dm.dirty = False
@@ -960,7 +981,7 @@ class World:
                 keep = {k: v for k, v in sax_effective(e.attrs).items() if k in ("fill", "stroke")}
             tree.children.append(PNode(e.pid, e.path, keep))
         pre = fs.gens()
-        status, val, fired = self.run(op, lambda: SaxDocument(op["src"]).save(op["dst"]))
+        status, val, fired = self.run(op, lambda: SaxDocument(op["src"]).save(fn_arg(op, op["dst"])))
         self.after_write(idx, op, status, fired, pre, tree, dst, "sax")
         return status
 
@@ -972,7 +993,7 @@ class World:
             return "skipped"
         fm = self.files[name]
         rd = op["reader"]
-        status, val, fired = self.run(op, lambda: self.read_with(rd, op["file"]))
+        status, val, fired = self.run(op, lambda: self.read_with(rd, fn_arg(op, op["file"])))
         fault = ",".join(fired) if fired else "-"
         if status == "crashed":
             return status
@@ -1050,7 +1071,7 @@ def replay(hist, keep_log=False):
 FILE_POOL = ["a.svg", "b.svg", "out/c.svg", "out/deep/er/d.svg", ROOT + "/tmp/e.svg", "pic.SVG", "noext",
              "sub dir/f g.svg", "out/c.xml"]
 GROUP_POOL = [["g1"], ["g1", "g2"], ["g3"], ["g1", "g4"], ["g3", "g5", "g6"], ["g10"], ["g1", "g22"], ["g"]]
-VAL_SIMPLE = ["red", "#00ff00", "none", "1.5", "blue", "0.25", "a b", "x1"]
+VAL_SIMPLE = ["red", "#00ff00", "none", "1.5", "blue", "0.25", "a b", "x1", "007", "1e3", "1.50", "TRUE"]
 VAL_NASTY = ["x&y", "<tag>", 'say "hi"', "it's", "ünïcödé ☃", "a  b", " lead", "trail ", "&amp;",
              "]]>", "100%", "url(#g)", "\U0001F600"]
 STYLE_VALS = ["fill:none;stroke:red", "stroke:#000", "fill:none;stroke-width:2", "fill:none;", "opacity:0.5; fill:blue"]
@@ -1066,7 +1087,7 @@ class Gen:
         self.chunk = c.choice([8, 64, 8192, 8192])
         k = c.randint(3, 5)
         self.readers = sorted(c.sample(READERS, k), key=READERS.index)
-        self.family = c.choice(["int", "half", "generic", "generic", "tiny", "huge", "mixed"])
+        self.family = c.choice(["int", "half", "generic", "generic", "tiny", "huge", "mixed", "exp"])
         self.kind_w = [c.choice([0, 1, 2, 3]) for _ in range(4)]
         if sum(self.kind_w) == 0:
             self.kind_w = [1, 1, 1, 1]
@@ -1097,6 +1118,7 @@ class Gen:
         self.nfaults = 0
         self.maxfaults = c.randint(1, 3)
         self.reuse_names = c.random() < 0.35
+        self.pathlike = c.random() < 0.3
 
     def config(self):
         return {"faulting": self.faulting, "bufsize": self.bufsize, "chunk": self.chunk, "readers": self.readers,
@@ -1106,7 +1128,12 @@ class Gen:
     def coord(self, r):
         f = self.family
         if f == "mixed":
-            f = r.choice(["int", "half", "generic", "tiny", "huge"])
+            f = r.choice(["int", "half", "generic", "tiny", "huge", "exp"])
+        if f == "exp":
+            # values whose repr uses exponent notation, negative zero, 17-digit mantissas, integers
+            # (|x| <= ~1e31: disvg's own canvas arithmetic overflows near the top of the double range)
+            return r.choice([1e22, -1e22, 2.5e+30, 1e-22, -3.75e-15, -0.0, 1e16, 123456789012345680.0,
+                             0.1 + 0.2, 1 / 3.0, 7.0, -7.0]) * r.choice([1, 1, 3, -1])
         if f == "int":
             return float(r.randint(-20, 20))
         if f == "half":
@@ -1236,6 +1263,9 @@ class Gen:
             op = self.make(k, a, w)
             if op is not None:
                 op["dt"] = a.choice(self.dts)
+                if self.pathlike and k in ("wsvg", "disvg", "doc_save", "doc_load", "sax_resave", "read") \
+                        and op.get("file", op.get("dst")) is not None and a.random() < 0.5:
+                    op["pathlike"] = True
                 if k in WRITE_OPS or k in ("read", "doc_load"):
                     f = self.fault(fr, k, w)
                     if f:
@@ -1361,7 +1391,7 @@ class Gen:
         if k == "doc_paths":
             return {"op": k, "doc": d}
         if k == "doc_paths_from_group":
-            return {"op": k, "doc": d, "names": a.choice(GROUP_POOL)}
+            return {"op": k, "doc": d, "names": a.choice(GROUP_POOL), "recursive": a.random() < 0.7}
         return None
 
 
@@ -1506,6 +1536,7 @@ ASSUMPTIONS = [
     "locale encoding fixed to UTF-8 (CPython's default in this sandbox)",
     "order oracle: paths with the same parent element keep their relative order (total order for flat documents); cross-group order is not constrained",
     "no transforms, nodes or text are written (svg2paths ignores transforms and turns circles into paths by design)",
+    "coordinates are finite doubles with |x| <= ~1e31 (disvg's canvas arithmetic overflows near the top of the double range)",
     "attribute keys are XML names without underscores, values are non-empty strings without control characters (svgwrite treats an empty value as unset and rewrites '_' to '-')",
 ]
 EXPECTED_PROBES = [
@@ -1514,6 +1545,7 @@ EXPECTED_PROBES = [
     "crash_or_restart_with_dirty_document", "file_left_unacknowledged_by_failed_write",
     "torn_or_unacknowledged_file_overwritten", "same_names_list_object_passed_to_two_calls",
     "add_path_into_element_handle", "browser_opened", "document_loaded_from_wsvg", "document_loaded_from_sax",
+    "pathlib_file_name", "paths_from_group_not_recursive",
 ]
 
 
